@@ -497,4 +497,31 @@ def areaWithin (ρ κt κf tol : Rat) (g : Geom) (b : Bounds) (tb fb area : Rat)
     | _ => rect
   decide (lower - slack tol lower ≤ area) && decide (area ≤ upper + slack tol upper)
 
+/-! #### area of an unbuffered polygonal geometry from its coordinates (contract `AreaExact`)
+
+  `geometry_to_shapely` is code under test as well (`geometry/conversion.py`), and the harness measures the
+  shapes of the area branch through it: the shoelace area of the coordinates is the independent value
+  (a valid polygon: holes inside the shell, parts of a multi-polygon with disjoint interiors). -/
+
+/-- twice the signed area of a ring (closed implicitly; an explicitly closed ring adds a zero term) -/
+def shoelace2 (ring : List Pt) : Rat :=
+  match ring with
+  | [] => 0
+  | p :: _ => ((ring.zip (ring.tail ++ [p])).map (fun (a, b) => a.1 * b.2 - b.1 * a.2)).foldl (· + ·) 0
+
+def ringArea (ring : List Pt) : Rat := absR (shoelace2 ring) / 2
+
+/-- shell minus holes -/
+def polyArea (rings : List (List Pt)) : Rat :=
+  match rings with
+  | [] => 0
+  | shell :: holes => ringArea shell - (holes.map ringArea).foldl (· + ·) 0
+
+/-- the area of a Polygon / MultiPolygon / BoundingBox read off the coordinates (`none`: another type) -/
+def closedArea : Geom → Option Rat
+  | .polygon rings => some (polyArea rings)
+  | .multiPolygon ps => some ((ps.map polyArea).foldl (· + ·) 0)
+  | .boundingBox s l e h => some (boxArea s l e h)
+  | _ => none
+
 end SE.Affinity
